@@ -65,7 +65,7 @@ func VerifC03RoundTripAbs() {
 func VerifC03RoundTripRel() {
 	bi := vnd.Pick(len(bases))
 	ri := vnd.Pick(len(refCtx))
-	w := vnd.Str(vnd.Len(vnd.Param("C03.KRel", 1, 3)))
+	w := vnd.Str(vnd.Len(vnd.Param("C03.KRel", 1, 2)))
 	u, err := ParseRef(bases[bi], refCtx[ri].pre+w+refCtx[ri].suf)
 	if err != nil {
 		return
@@ -148,10 +148,10 @@ func VerifC03RoundTripResolveOps() {
 func VerifC03RoundTripOps1() { roundTripOps(1, vnd.Param("C03.KOps1", 2, 3), len(startURLs)) }
 
 // VerifC03RoundTripOps2: two setter calls, the first from the value lists, the second symbolic.
-func VerifC03RoundTripOps2() { roundTripOps(2, vnd.Param("C03.KOps2", 1, 2), vnd.Param("C03.Starts2", 8, 18)) }
+func VerifC03RoundTripOps2() { roundTripOps(2, vnd.Param("C03.KOps2", 1, 2), vnd.Param("C03.Starts2", 8, 8)) }
 
 // VerifC03RoundTripOps3: three setter calls (thorough tier).
-func VerifC03RoundTripOps3() { roundTripOps(3, vnd.Param("C03.KOps3", 0, 1), vnd.Param("C03.Starts3", 8, 18)) }
+func VerifC03RoundTripOps3() { roundTripOps(3, vnd.Param("C03.KOps3", 0, 0), vnd.Param("C03.Starts3", 4, 4)) }
 
 func init() {
 	verifHarnesses["VerifC03RoundTripAbs"] = VerifC03RoundTripAbs
